@@ -73,6 +73,12 @@ CLAIMS = {
         'note': 'Trusts LIMIT_TABLE, BOUNDED_ARRAYS, FROZEN_BOUNDS/FROZEN_INDEX in yrsa/rules/C15.py (each frozen entry states its bounding argument) and the monotone-counter assumption for `== LIMIT` tests.',
         'technique': 'static limit->error table check + margin dataflow on bounded writes + must-pass-through of timeout polls over clang CFG facts',
     },
+    'C07': {
+        'text': 'Decides necessary structural clauses of compile robustness: (R7.1) in every final action of the three bison grammars each right-hand-side value with a %destructor is consumed exactly once on every exit of the action (normal end, YYERROR, YYABORT) and never used after it was freed - bison does not destruct the right-hand side of the rule whose action raises the error; (R7.2) every YYERROR/YYABORT of the rule grammar is preceded on its path by yyerror() with compiler->last_error set, and the public yr_compiler_add_* return the error count; (R7.3) every generated parser runs under a dominating setjmp on the very buffer its lexer\'s fatal handler longjmps to, whose recovery branch returns a failure, releases what the normal path releases after the parse, and reads only locals settled before setjmp; (R7.4) compile-time folding applies the VM\'s trap guards (shared with C12); (R7.5) every YR_COMPILER field that receives an owning pointer reaches a releasing call in yr_compiler_destroy; (R7.6) every error code that can reach compiler->last_error has a message case; (R7.7) error-message buffers in locals are initialised before they are read, or filled by the callee for exactly the return codes under which they are read. Termination and memory safety of the flex/bison engines on arbitrary bytes are not decided.',
+        'design_ref': 'DESIGN.md section 4, C07 (R7.1-R7.7)',
+        'note': 'Trusts the bison semantics stated in yrsa/rules/C07.py ASSUMPTIONS, the .y reader yrsa/bison.py (actions are matched to generated code through #line), MEMBER_OF_TYPE (which union member owns memory per %type) and callee escape summaries from C16.',
+        'technique': 'static ownership typestate over bison actions + must-pass-through (yyerror before YYERROR) + dominance/pairing on setjmp scaffolding + exhaustiveness over return-code summaries (clang CFG facts)',
+    },
     'C12': {
         'text': 'Decides, for every constant-folding grammar action, that the folder applies the same C operator and the same operand-value guards as the VM handler of the opcode the action emits; that no compiler-layer code reads a run-time object value; that externals are looked up in the scanner-owned table; and that shortcut flags are cleared on every path that uses a string otherwise. These are necessary structural clauses of C12, decided on all sites; verdict equality itself is not decided.',
         'design_ref': 'DESIGN.md section 4, C12 (R12.1-R12.6)',
